@@ -39,6 +39,12 @@ def jobs(tier):
         J.append(Job(b, "sig", "1,0,1,1", dict(p1, target=2), env, workers=8))
         J.append(Job(b, "merged", "1,0,1,0", p1, env, workers=8))
         J.append(Job(b, "three_callers", "1,0,1,0", p1, env, workers=8))
+        # process-directed signal: any thread of the process that does not block it may run the handler - including
+        # the library's call_rcu / defer_rcu helper threads unless the library keeps signals blocked in them
+        J.append(Job(b, "sig", "0,0,0,1,0", dict(p1, target=7, helpers=1), env, workers=8))
+        J.append(Job(b, "sig", "0,0,0,1,0", dict(p1, target=7, helpers=1, callrcu=1), env, workers=8))
+        if not q:
+            J.append(Job(b, "sig", "1,0,0,1,0", dict(p1, target=7, helpers=1), env, workers=16))
         if bp:
             for tgt in (1, 2, 3):
                 J.append(Job(b, "sig", "1,0,0,1", dict(p1, target=tgt, main_registered=0, init_reader_count=2), env, workers=8))
